@@ -43,6 +43,34 @@ def make_prog(seed, i):
     return prog, enums
 
 
+def e2e_prog(seed, i):
+    """a bridge whose only values are enums: every route a discriminant can take between Rust and the generated JS (direct argument / return,
+    Option and Result payloads and struct fields, which travel through wasm memory), for the real-wasm32 leg"""
+    rng = random.Random("c11e2e/%s/%s" % (seed, i))
+    g = spec.Gen(rng, name="p%d" % i)
+    prog = spec.Program("p%d" % i)
+    mod = spec.Module("ffi")
+    prog.modules.append(mod)
+    op = spec.Opaque("Hub")
+    op.methods.append(spec.Method("make", None, [("seed", ("prim", "u32"))], ("obox", "Hub", False)))
+    enums = [g.gen_enum(style=STYLES[(i * 5 + k) % len(STYLES)], n=rng.randint(1, 8)) for k in range(5)]
+    enums[-1].attrs.append("#[diplomat::attr(auto, error)]")
+    st = spec.Struct("Se", [("a", ("enum", enums[0].name)), ("b", ("prim", "u8")), ("c", ("enum", enums[1].name)), ("d", ("opt", ("enum", enums[2].name), "dip")),
+                            ("e", ("enum", enums[3].name))])
+    for k, en in enumerate(enums[:4]):
+        t = ("enum", en.name)
+        op.methods.append(spec.Method("t%d" % k, ("ref", None), [("e", t)], t))
+        op.methods.append(spec.Method("o%d" % k, ("ref", None), [("e", ("opt", t, "std"))], ("opt", t, "std")))
+        op.methods.append(spec.Method("r%d" % k, ("ref", None), [("e", t), ("n", ("prim", "u8"))], ("result", t, ("enum", enums[-1].name), "std")))
+    op.methods.append(spec.Method("s", ("ref", None), [("v", ("struct", "Se"))], ("struct", "Se")))
+    op.methods.append(spec.Method("so", ("ref", None), [("v", ("struct", "Se"))], ("opt", ("struct", "Se"), "std")))
+    mod.items = enums + [st, op]
+    for t_ in mod.items:
+        for m_ in t_.methods:
+            m_.owner = t_
+    return prog
+
+
 def c_program(enums, cpp=False):
     if not cpp:
         src = '#include <stdio.h>\n' + "".join('#include "%s.h"\n' % e.name for e in enums) + "int main(void) {\n"
@@ -313,12 +341,17 @@ def main(tier, seed):
             chk.violation("p%d_%s_%s" % (i, b, en), "program p%d backend %s enum %s::%s: %s" % (i, b, en, vn, msg),
                           {"backend": b, "enum": en, "variants": edef.variants if edef else None, "rustc_values": edef.values() if edef else None,
                            "message": msg, "dir": toolrun.workdir("c11", "p%d" % i)})
-    chk.evaluations = stats["backend_variant_checks"]
+    # ---- discriminants that travel through the generated JS on a real wasm32 module: direct, Option / Result payloads, struct fields
+    import api
+    e2e = api.js_e2e_leg(chk, seed + 11800, 160 if thorough else 24, "c11e2e", ncalls=40, label="js-e2e-enums", prepared=lambda i: e2e_prog(seed, i))
+    stats.update({"js_e2e_" + k: v for k, v in e2e.items()})
+    chk.evaluations = stats["backend_variant_checks"] + e2e["calls"]
     chk.distinct = {s for s in styles_seen if len(s[1]) > 1 or s[1][0] != 0}
     chk.rule = ("8 enums per program with 1..8 variants, discriminant styles cycled over {implicit, explicit non-monotonic, negative, gaps, i32 extremes, 0-based "
                 "contiguous, 1-based contiguous, mixed, non-identity permutation of 0..n-1}; every enum is used as parameter and return of a method so that "
                 "conversion code is generated. Ground truth = `as isize` printed by a compiled Rust program. distinct_nontrivial = distinct discriminant vectors "
-                "other than the single-variant [0].")
+                "other than the single-variant [0]. Real-wasm32 leg: bridges whose only values are enums (5 per program, same styles), crossing as arguments, returns, "
+                "Option/Result payloads and struct fields through the generated spec-ABI JS in node, event log compared with the script's prediction.")
     chk.extra = dict(stats, programs=nprog)
     for i, res, enums in results[:1]:
         for en in enums[:3]:
